@@ -436,7 +436,7 @@ class BinaryRecordWriter(IORecord):
 
     def rwLong(self, val):
         """Reads an integer value from the binary stream."""
-        self.byteCount += self._longSize
+        self.numBytes += self._longSize
         self.data.append(struct.pack("q", val))
         return val
 
